@@ -217,6 +217,22 @@ fn c07m_case(p: &conc::ClockProgram) -> CaseReport {
     CaseReport { failure, nontrivial, counters, sample, evaluations: 1 }
 }
 
+fn c16s_case(p: &conc::StaleEntryProgram) -> CaseReport {
+    let out = conc::run_stale_entry_program(p);
+    let mut counters = BTreeMap::new();
+    if out.reader_was_parked {
+        *counters.entry("reader_parked_inside_its_device_read".into()).or_insert(0) += 1;
+    }
+    if out.reader_saw_old {
+        *counters.entry("reader_returned_the_overwritten_generation".into()).or_insert(0) += 1;
+    }
+    *counters.entry(format!("follow_up.{}", ["update_ttl", "persist", "get", "compare_and_swap", "none"][(p.follow as usize).min(4)])).or_insert(0) += 1;
+    let nontrivial = (out.reader_saw_old && p.flush_first && !p.read_between).then(|| env::fnv(format!("{p:?}").as_bytes()));
+    let sample = nontrivial.map(|_| json!({"program": serde_json::to_value(p).unwrap()}));
+    let failure = out.failure.map(|(sig, msg)| (sig, msg, json!({"program": serde_json::to_value(p).unwrap()})));
+    CaseReport { failure, nontrivial, counters, sample, evaluations: 1 }
+}
+
 fn c11d_case(p: &conc::SweepProgram) -> CaseReport {
     let out = conc::run_sweep_program(p);
     let mut counters = BTreeMap::new();
@@ -404,6 +420,26 @@ pub fn worker(id: &str, seed: u64, lane: u64, count: u32, outdir: &str, tier: Ti
                     TestError::Abort(r) => TestError::Abort(r),
                 })
         }
+        "C16S" => {
+            let strat = conc::stale_entry_strategy();
+            runner
+                .run(&strat, |p| {
+                    let counting = !failed.load(std::sync::atomic::Ordering::Relaxed);
+                    let r = c16s_case(&p);
+                    absorb(&agg, &r, counting);
+                    match r.failure {
+                        Some((sig, msg, _)) => {
+                            failed.store(true, std::sync::atomic::Ordering::Relaxed);
+                            Err(TestCaseError::fail(format!("[{sig}] {msg}")))
+                        }
+                        None => Ok(()),
+                    }
+                })
+                .map_err(|e| match e {
+                    TestError::Fail(r, v) => TestError::Fail(r, serde_json::to_value(&v).unwrap()),
+                    TestError::Abort(r) => TestError::Abort(r),
+                })
+        }
         "C11D" => {
             let strat = conc::sweep_program_strategy();
             runner
@@ -507,13 +543,18 @@ fn meta(id: &str, tier: Tier) -> Meta {
         },
         "C13D" => Meta {
             cases: tier.pick(1600, 24_000),
-            rule: "proptest-generated programs on a memory-only store with a limit of 8-200 KB: 2-8 threads insert / insert_bytes / grow by compare-and-swap / delete their own keys and up to 5 shared keys with values of 10 B - 40 KB (so only some writes fit), plus counters; two monitor threads sample memory_usage() continuously; steered schedules. Every sample must be <= the limit; a write refused with OutOfMemory must leave the owner's key unchanged; owned deletes must agree with the owner's knowledge; after all writers finished memory_usage() must equal the sum over the stored records and len() their number. Non-trivial: a run with at least one refused write and at least one write admitted within 2 KB of the limit.",
+            rule: "proptest-generated programs on a memory-only store with a limit of 8-200 KB (one program in six: no limit at all, built with no_memory_limit()): 2-8 threads insert / insert_bytes / grow by compare-and-swap / delete their own keys and up to 5 shared keys with values of 10 B - 40 KB (so only some writes fit), plus counters; two monitor threads sample memory_usage() continuously; steered schedules. Every sample must be <= the limit; a write refused with OutOfMemory must leave the owner's key unchanged; owned deletes must agree with the owner's knowledge; after all writers finished memory_usage() must equal the sum over the stored records and len() their number. Non-trivial: a run with at least one refused write and at least one write admitted within 2 KB of the limit.",
             assumptions: vec!["the limit is checked on sampled instants (two spinning monitor threads), not on every instant".into()],
         },
         "C07M" => Meta {
             cases: tier.pick(640, 8000),
             rule: "proptest-generated mixed-clock programs (memory-only and persistent): 60-400 rounds on fresh keys; in every round the main thread publishes insert_with_timestamp(key, Some(F)) with F 1 s / 1 h / 10 days ahead of the wall clock while 1-3 helper threads, released by the same barrier with a generated skew, draw automatic timestamps - on the round's own key and on pools of 1-300 other keys that collide into the same one of the 64 clock shards. After every round all helpers are parked; the main thread then issues an automatic insert / delete / compare-and-swap on the key. In real-time order that call is the newest write: it must be accepted, and the stored timestamp must exceed F. Non-trivial: a program in which explicit future timestamps were accepted while helpers wrote.",
             assumptions: vec!["the race between the explicit publication and the helpers' timestamp draws is sampled (barrier + generated spin skew), not enumerated".into()],
+        },
+        "C16S" => Meta {
+            cases: tier.pick(480, 6000),
+            rule: "proptest-generated steered scenarios on a persistent store with the cache on: key K (64 B - 2 blocks) is flushed, offloaded and not cached; a reader thread is parked inside its device read of K (scheduling hook after_sector_load, 5-60 ms) while the main thread overwrites K; the reader then returns the old value and leaves a cache entry that belongs to the retired generation. Then (generated) the new generation is flushed or not, K is read once or not, and a follow-up call that may consume cached bytes runs: update_ttl / persist (TTL on), get, compare-and-swap, or none. The following get(), and a get() after flush and restart, must return the current generation. Non-trivial: the reader did return the overwritten generation, the new generation was flushed and K was not read before the follow-up call.",
+            assumptions: vec!["the reader/overwrite race is forced by parking the reader at the device-read scheduling point; everything else is sequential".into()],
         },
         "C11D" => Meta {
             cases: tier.pick(900, 14_000),
@@ -718,6 +759,7 @@ pub fn replay_sub(id: &str, path: &str) -> i32 {
             "C14D" => serde_json::from_value::<conc::ScanProgram>(doc["replay"]["program"].clone()).ok().and_then(|p| c14d_case(&p, 1).failure),
             "C13D" => serde_json::from_value::<conc::MemProgram>(doc["replay"]["program"].clone()).ok().and_then(|p| c13d_case(&p).failure),
             "C11D" => serde_json::from_value::<conc::SweepProgram>(doc["replay"]["program"].clone()).ok().and_then(|p| c11d_case(&p).failure),
+            "C16S" => serde_json::from_value::<conc::StaleEntryProgram>(doc["replay"]["program"].clone()).ok().and_then(|p| c16s_case(&p).failure),
             "C07M" => serde_json::from_value::<conc::ClockProgram>(doc["replay"]["program"].clone()).ok().and_then(|p| c07m_case(&p).failure),
             "C08" | "C16D" => serde_json::from_value::<conc::RaceProgram>(doc["replay"]["program"].clone()).ok().and_then(|p| c08_case(&p, 1).failure),
             _ => None,
